@@ -24,8 +24,8 @@ from lib.kvlib import *
 PROP = "C17"
 MANIFEST = dict(
     level="model_checking", design_ref="DESIGN.md 8 (C17), 7 (Modulators / Render)",
-    technique="TLA+ model of Renderer::process_chunk with the modulator storage, tweener, LFO and Value::FromModulator/Mapping/Parameter (TLC, exact scaled-integer arithmetic) + TLC-generated add/drop/set/link/callback behaviours (bounded exhaustive and seeded random walks) replayed on the real AudioManager/Renderer with stamping probe modulators/sounds and real tweeners, LFOs, sounds, tracks, effects and clocks + seeded random histories + TLC trace validation against the property-level monitor P_C17",
-    text="TLC explores every history of creating, dropping, re-targeting and linking modulators interleaved with callbacks of several internal chunks for small constants against the property-level monitor (every modulator updated exactly once per chunk with the chunk's time step and before every reader; a reader sees the value of the same chunk; a linked parameter equals map(value) with clamping, easing and interpolation in the same chunk; it holds its last value once the modulator is removed, also after the slot is reused; a removed id never resolves again; a tweener follows the tween reference of P_C06 and ends exactly on target; saw/triangle/pulse LFOs follow the piecewise-linear waveform exactly, every waveform stays within offset +- |amplitude|) and structural invariants; TLC-generated behaviours and seeded random histories are executed on the real manager + renderer for internal buffer sizes 1-4 with callback sizes that are not multiples, and every recorded session is validated by TLC against P_C17. Exhaustive for small constants, sampled beyond.",
+    technique="TLA+ model of Renderer::process_chunk with the modulator storage, tweener, LFO and Value::FromModulator/Mapping/Parameter (TLC, exact scaled-integer arithmetic) + TLC-generated add/drop/set/link/callback behaviours (bounded exhaustive and seeded random walks) replayed on the real AudioManager/Renderer with stamping probe modulators/sounds and real tweeners, LFOs, sounds, tracks, effects and clocks + seeded random histories + TLC trace validation against the property-level monitor P_C17 + PickUpOrder model and its schedules replayed through the sto.refill yield point",
+    text="TLC explores every history of creating, dropping, re-targeting and linking modulators interleaved with callbacks of several internal chunks for small constants against the property-level monitor (every modulator updated exactly once per chunk with the chunk's time step and before every reader; a reader sees the value of the same chunk; a linked parameter equals map(value) with clamping, easing and interpolation in the same chunk; it holds its last value once the modulator is removed, also after the slot is reused; a removed id never resolves again; a tweener follows the tween reference of P_C06 and ends exactly on target; saw/triangle/pulse LFOs follow the piecewise-linear waveform exactly, every waveform stays within offset +- |amplitude|) and structural invariants; TLC-generated behaviours and seeded random histories are executed on the real manager + renderer for internal buffer sizes 1-4 with callback sizes that are not multiples, and every recorded session is validated by TLC against P_C17. Exhaustive for small constants, sampled beyond. PickUpOrder.tla: the order in which the four top-level rings of new resources are drained (dependents before what they read; reversed order kept as a witness), replayed by stopping the audio thread before each drain while a modulator and a sound / track sound / clock linked to it are created.",
     note="The numeric sine curve is out of reach: only its bounds, its four cardinal points and half-period antisymmetry are checked. Sessions with non-dyadic values compare rounded projections with a tolerance of 12/4096 and check LFOs for their bounds only. Negative LFO frequencies, degenerate mapping input ranges and a modulator linked to itself (it reads the storage's dummy, value 0) are outside the statement and only feed the model-drift comparison. Clock-started tweener tweens are not driven (the start-time logic is the same code as Parameter's, C06). A modulator re-linked through its handle to a modulator created after it lags one chunk (finding candidate, findings/C17-late-link): not generated at property level unless listed in known_findings.json. When a dropped modulator is removed is C08's business: the monitor lets the observation decide.")
 
 S = 4096
